@@ -209,6 +209,25 @@ def check_cells(db, chk):
     for s in ("Append", "Delete", "CreateIndex", "DataReplacement", "Merge", "Project", "Overwrite", "Restore"):
         not_ok[(s, "UpdateMemWalState")] = "the data operation was planned without the MemWAL state change"
     apply_oracle(chk, M, not_ok, dep, R="ARMS-memwal")
+    # which lists of the two transactions are compared for a common MemWAL: two writers that read the same version compute the
+    # same new generation (latest + 1, or 0 for a new region), so (their added, our added) must be compared, and two changes
+    # of an existing generation meet in (their updated, our updated); the mixed pairs are allowed but not required
+    g = db.one(r"TransactionRebase::<'a>::check_update_mem_wal_state_txn$", file="lance/src/io/commit/conflict_resolver.rs")
+    chk.analysed(g)
+    gc = g.cfg
+    pairs = set()
+    for b, t in calls(g, "check_update_mem_wal_state_not_modify_same_mem_wal"):
+        side = {}
+        for k in (1, 2):
+            o = gc.op_origins(t["args"][k], transparent=lambda t: True)
+            who = "theirs" if ("arg", 2) in o and ("arg", 1) not in o else ("ours" if ("arg", 1) in o and ("arg", 2) not in o else "?")
+            lst = sorted({x[1] for x in o if x[0] == "field"} & {"added", "updated", "removed"})
+            side[who] = lst[0] if len(lst) == 1 else "?"
+        pairs.add((side.get("theirs", "?"), side.get("ours", "?")))
+    for need in (("added", "added"), ("updated", "updated")):
+        chk.ob("ARMS-memwal", "same-memwal-pair:%s/%s" % need, need in pairs,
+               "a committed transaction's `%s` list is compared with this transaction's `%s` list for a common MemWAL (pairs compared: %s)" % (
+                   need[0], need[1], sorted(pairs)), g.loc())
     # the same-MemWAL helper compares ids
     h = db.one(r"check_update_mem_wal_state_not_modify_same_mem_wal$", file="lance/src/io/commit/conflict_resolver.rs")
     chk.analysed(h)
